@@ -106,18 +106,23 @@ def faulted_scenarios(tier):
     an I/O error part-way'): every fault-site class of T1's call x every interleaving with T2's call."""
     from .. import tscen
     out = []
-    bases = [("t1A||t2A", "Aunref", [T1A], [T2A]), ("M1||M2", "meta", [M1], [M2]), ("d1||t2A", "p1A", [D1], [T2A])]
+    M1F = ("store_meta", "p1", "f2", "v1")
+    bases = [("t1A||t2A", "Aunref", [T1A], [T2A]), ("M1||M2", "meta", [M1], [M2]), ("d1||t2A", "p1A", [D1], [T2A]),
+             # the failing call is a delete-all walking TWO documents while a store of one of them waits / slips in between
+             ("Da||M1", "meta2", [DA], [M1]), ("Da||M1f", "meta2", [DA], [M1F])]
     if tier == "thorough":
         bases += [("d1||d2", "p1A,p2A", [D1], [D2]), ("M1||Da", "meta", [M1], [DA])]
     for name, init, a, b in bases:
         spec = {"name": name, "init": init, "threads": {"T1": a, "T2": b}, "pids": ("p1", "p2", "p3"),
-                "formats": (DEFAULT_NS,), "judge": "liveness", "followups": FOLLOW}
+                "formats": (DEFAULT_NS, "f2") if init == "meta2" else (DEFAULT_NS,), "judge": "liveness", "followups": FOLLOW}
         seen = set()
         for k, occ in tscen.fault_classes(spec, "T1"):
             if (k, occ) in seen:
                 continue
             seen.add((k, occ))
-            for persistent in ((False, True) if tier == "thorough" else (False,)):
+            # (a one-off rename error is absorbed by shutil.move's copy fallback: for the delete-all bases the persistent
+            # variant, which makes the move itself fail, is part of the quick tier too)
+            for persistent in ((False, True) if tier == "thorough" or name.startswith("Da||") else (False,)):
                 s = dict(spec, faults={"T1": (k, occ, "EIO", persistent)})
                 s["name"] = "%s from %s + %s EIO at T1's %s#%d" % (name, init, "persistent" if persistent else "one-off", k, occ)
                 out.append(s)
